@@ -18,7 +18,7 @@ import tempfile
 import traceback
 from fractions import Fraction
 
-from common import REPO, VERIF, coq_string, frac, sh
+from common import REPO, VERIF, coq_string, frac, sh, source_pins
 
 TRUSTED_BASE = [
     "Coq 8.16.1 kernel + coqc (vm_compute only for finite sweeps over the generated template table; no native_compute)",
@@ -41,6 +41,62 @@ RULE = ("species 1..60 atoms (quick <= 15) with coordinates +-{1e-6..1e3} incl. 
         "custom keyword sets x distance/Cartesian constraints x point charges x active bonds x cores {1..16} x memory; plus xyz / trajectory "
         "writers; regeneration sequences (calculation register enabled, same directory: generate, change geometry / cores / memory / "
         "constraints, generate again, re-read); TS optimisations of solvated species with every job of a multi-job input checked; a case is non-trivial when an input file was produced and re-read; distinct by the full case specification")
+
+# Every function the hand-written parts were written from: the documented layouts / readers of Model.v and the
+# Python readers, expectation tables and oracles below mirror the block structure of these writers (which section
+# follows which, when a block is printed, how keywords are rewritten, where cores / memory / solvent go).  The
+# translator regenerates only the format templates of the print statements inside them, not this structure.
+PINS = (
+    [("autode/wrappers/ORCA.py", q) for q in (
+        "print_added_internals", "print_distance_constraints", "print_cartesian_constraints",
+        "print_num_optimisation_steps", "print_point_charges", "print_default_params", "print_coordinates",
+        "ORCA.generate_input_for", "ORCA.get_keywords", "ORCA.use_vdw_gaussian_solvent", "ORCA.add_solvent_keyword",
+        "ORCA.print_solvent", "ORCA.input_filename_for")]
+    + [("autode/wrappers/G09.py", q) for q in (
+        "_add_opt_option", "_modify_keywords_for_point_charges", "_n_ecp_elements", "_get_keywords",
+        "_print_point_charges", "_print_added_internals", "_print_constraints", "_print_custom_basis",
+        "G09.generate_input_for", "G09.input_filename_for")]
+    + [("autode/wrappers/G16.py", "G16")]
+    + [("autode/wrappers/NWChem.py", q) for q in (
+        "ecp_block", "get_keywords", "NWChem.generate_input_for", "NWChem.execute", "NWChem.input_filename_for")]
+    + [("autode/wrappers/QChem.py", q) for q in (
+        "QChem.generate_input_for", "QChem.execute", "QChem._is_ts_opt", "QChem._keywords_contain",
+        "QChem._InputFileWriter", "QChem.input_filename_for")]
+    + [("autode/wrappers/XTB.py", q) for q in (
+        "XTB.print_distance_constraints", "XTB.print_cartesian_constraints", "XTB.print_point_charge_file",
+        "XTB.print_xcontrol_file", "XTB.generate_input_for", "XTB.execute", "XTB.input_filename_for")]
+    + [("autode/wrappers/MOPAC.py", q) for q in (
+        "get_keywords", "get_atoms_and_fixed_atom_indexes", "print_atoms", "print_point_charges",
+        "_get_atoms_linear_interp", "MOPAC.generate_input_for", "MOPAC.execute", "MOPAC.input_filename_for")]
+    + [("autode/input_output.py", "atoms_to_xyz_file"),
+       ("autode/species/species.py", "Species.print_xyz_file"), ("autode/species/species.py", "Species.__str__"),
+       ("autode/species/species.py", "Species.has_valid_spin_state"),
+       ("autode/path/path.py", "Path.print_geometries"),
+       ("autode/opt/optimisers/base.py", "print_geometries_from"),
+       ("autode/calculations/executors.py", "CalculationExecutor.__init__"),
+       ("autode/calculations/executors.py", "CalculationExecutor._check"),
+       ("autode/calculations/executors.py", "CalculationExecutor.generate_input"),
+       ("autode/calculations/executors.py", "CalculationExecutor.__str__"),
+       ("autode/calculations/executors.py", "CalculationExecutor._fix_unique"),
+       ("autode/calculations/executors.py", "_active_bonds"),
+       ("autode/calculations/executors.py", "_string_without_leading_hyphen"),
+       ("autode/calculations/calculation.py", "Calculation._executor_for"),
+       ("autode/calculations/calculation.py", "Calculation.generate_input"),
+       ("autode/calculations/calculation.py", "Calculation._check"),
+       ("autode/calculations/input.py", "CalculationInput"),
+       ("autode/wrappers/keywords/keywords.py", "Keyword.__init__"),
+       ("autode/wrappers/keywords/keywords.py", "Keyword.has_only_name"),
+       ("autode/wrappers/keywords/keywords.py", "Keywords.append"),
+       ("autode/wrappers/keywords/keywords.py", "Keywords._set_keyword"),
+       ("autode/wrappers/keywords/keywords.py", "OptKeywords"),
+       ("autode/wrappers/keywords/keywords.py", "MaxOptCycles"),
+       ("autode/constraints.py", "Constraints.cartesian"), ("autode/constraints.py", "Constraints.distance"),
+       ("autode/constraints.py", "Constraints.any"), ("autode/constraints.py", "DistanceConstraints"),
+       ("autode/point_charges.py", "PointCharge"),
+       ("autode/atoms.py", "Atom.__init__"), ("autode/atoms.py", "DummyAtom.__init__"), ("autode/atoms.py", "Atoms.copy"),
+       ("autode/utils.py", "run_external"), ("autode/utils.py", "work_in_tmp_dir"),
+       ("autode/utils.py", "run_in_tmp_environment")]
+)
 
 SLICE = ["C17/Base.v", "C17/Decimal.v", "C17/Model.v", "C17/Lemmas.v", "C17/Props.v", "C17/Corr.v", "gen/C17_Gen.v"]
 PRE = ("From Coq Require Import ZArith QArith List String Bool.\nFrom AV.lib Require Import QcInst.\n"
@@ -1320,6 +1376,10 @@ def run(ctx):
     full = not ctx.quick
     tempfile.tempdir = ctx.work
     os.environ["AUTODE_FIXUNIQUE"] = "False"
+    pins_changed = source_pins(ctx.pid, PINS)
+    ctx.cov["source_pins"] = {"pinned": len(PINS), "changed": pins_changed}
+    if pins_changed:
+        ctx.log("source pins changed:", ", ".join(pins_changed))     # streams keep their tier size (thorough is ~5 min)
     # 1. regenerate the template table from /repo
     rc, out = sh(["python3", f"{VERIF}/tr/translate_c17.py"], timeout=120)
     ctx.log("translator:", out.strip()[:300])
@@ -1388,7 +1448,7 @@ def run(ctx):
     if proofs_ok and terms:
         for d in descr:
             ctx.count("coq-lines", repr(d), True)
-        bad, corr_err = ctx.coq_bad_indices(PRE, terms, per_file=12 if full else 8, timeout=600, name="c17cases")
+        bad, corr_err = ctx.coq_bad_indices(PRE, terms, per_file=12 if full else 16, timeout=600, name="c17cases")
         corr_bad = [(descr[i], terms[i]) for i in bad]
         ctx.log(f"correspondence (Coq readers + writer model on {len(terms)} files): {len(corr_bad)} disagreements"
                 + (f"; coq error {corr_err[:300]}" if corr_err else ""))
@@ -1408,6 +1468,14 @@ def run(ctx):
                           found_input=False)
         else:
             ctx.log("correspondence disagreements explained by the implementation-level findings above")
+    if pins_changed and nfail_unknown(ctx) == 0 and translated and proofs_ok and not (corr_bad or corr_err):
+        ctx.violation("hand model no longer pinned to the source: " + ", ".join(pins_changed),
+                      {"kind": "source-pin", "changed": pins_changed}, found_input=False)
+
+
+def nfail_unknown(ctx):
+    """number of violations recorded so far (known findings do not count: they are not new failing inputs)"""
+    return len(ctx.violations)
 
 
 def replay(ctx, obj):
